@@ -521,10 +521,9 @@ def modelUn (R : Rounding) (v : Ver) (op : UnOp) (a : Num) : Num :=
 `[+-]?(digits(.digits*)?|.digits)([Ee][+-]?digits)?`, then Python `float(str)`); integer and decimal
 literals are NOT converted by the binary operators (finding F06v) but are by floor/ceiling/round -/
 
-/-- characters matched by the implementation's white-space class `[^\S\xa0]` -/
-def isPySpace (c : Char) : Bool :=
-  [9, 10, 11, 12, 13, 28, 29, 30, 31, 32, 133, 5760, 8192, 8193, 8194, 8195, 8196, 8197, 8198, 8199, 8200,
-   8201, 8202, 8232, 8233, 8239, 8287, 12288].contains c.toNat
+/-- characters matched by the implementation's white-space class `[ \\t\\n\\r]` (helpers.Patterns.whitespaces;
+XML white space only since the fix "whiteSpace normalisation … treats only XML white space") -/
+def isPySpace (c : Char) : Bool := [9, 10, 13, 32].contains c.toNat
 
 /-- `([Ee][+-]?[0-9]+)?$` on the rest after the mantissa: the exponent -/
 def scanExp (cs : List Char) : Option Int :=
